@@ -59,6 +59,18 @@ static void c06_days() {
   for (int y = -32768; y <= 32767; y++) {
     CNT.add("c06.year_validity_cases");
     if (LocalDate::isYearValid((int16_t) y) != (y >= 1873 && y <= 2127)) { J j; j.num("year", y); witness("c06:isYearValid-wrong", "isYearValid differs from the documented interval [1873, 2127]", j); }
+    // every factory that takes a full year: error exactly outside the interval, the year kept inside it
+    bool in = y >= 1873 && y <= 2127;
+    LocalDate fd = LocalDate::forComponents((int16_t) y, 6, 15);
+    LocalDateTime fdt = LocalDateTime::forComponents((int16_t) y, 6, 15, 12, 0, 0);
+    OffsetDateTime fo = OffsetDateTime::forComponents((int16_t) y, 6, 15, 12, 0, 0, TimeOffset::forHours(1));
+    ZonedDateTime fz = ZonedDateTime::forComponents((int16_t) y, 6, 15, 12, 0, 0, TimeZone::forUtc());
+    const char* which = nullptr;
+    if (fd.isError() == in || (in && fd.year() != y)) which = "LocalDate";
+    else if (fdt.isError() == in || (in && fdt.year() != y) || (!in && fdt.toEpochSeconds() != LocalDate::kInvalidEpochSeconds)) which = "LocalDateTime";
+    else if (fo.isError() == in || (in && fo.year() != y) || (!in && fo.toEpochSeconds() != LocalDate::kInvalidEpochSeconds)) which = "OffsetDateTime";
+    else if (fz.isError() == in || (in && fz.year() != y) || (!in && fz.toEpochSeconds() != LocalDate::kInvalidEpochSeconds)) which = "ZonedDateTime";
+    if (which) { J j; j.num("year", y).str("factory", which); witness("c06:year-out-of-range-not-error", "forComponents with a year outside 1873..2127 is not flagged (or a valid year is)", j); }
   }
   // dates outside the year range are errors; sentinel behaviour
   for (int y : {-32768, -1, 0, 1872, 2128, 9999, 32767}) {
@@ -488,6 +500,37 @@ static void c15(long long seedv) {
     StrPrint p4; ZonedDateTime::forError().printTo(p4); cases[4] = {p4.buf, "<Invalid ZonedDateTime>", "ZonedDateTime"};
     StrPrint p5; TimeZone::forError().printTo(p5); cases[5] = {p5.buf, "<Error>", "TimeZone"};
     for (auto& c : cases) { CNT.add("c15.placeholders"); if (c.got != c.want) { J j; j.str("type", c.what).str("got", c.got).str("want", c.want); witness("c15:placeholder", "error value does not print its documented placeholder", j); } }
+  }
+  // ... whichever component makes them an error: one component at a time takes every byte value; a value that is an error
+  // prints exactly its own type's placeholder, a value that is not prints no placeholder at all
+  {
+    TimeZone utc = TimeZone::forUtc();
+    for (int comp = 0; comp < 5; comp++) for (int v = 0; v < 256; v++) {
+      uint8_t mo = 3, d = 10, h = 2, mi = 30, se = 15;
+      (comp == 0 ? mo : comp == 1 ? d : comp == 2 ? h : comp == 3 ? mi : se) = (uint8_t) v;
+      LocalDate ld = LocalDate::forComponents(2019, mo, d);
+      LocalTime lt = LocalTime::forComponents(h, mi, se);
+      LocalDateTime ldt = LocalDateTime::forComponents(2019, mo, d, h, mi, se);
+      OffsetDateTime odt = OffsetDateTime::forComponents(2019, mo, d, h, mi, se, TimeOffset::forHours(-8));
+      ZonedDateTime zdt = ZonedDateTime::forComponents(2019, mo, d, h, mi, se, utc);
+      struct { bool err; std::string got; const char* want; const char* what; } cs[5];
+      StrPrint q0; ld.printTo(q0); cs[0] = {ld.isError(), q0.buf, "<Invalid LocalDate>", "LocalDate"};
+      StrPrint q1; lt.printTo(q1); cs[1] = {lt.isError(), q1.buf, "<Invalid LocalTime>", "LocalTime"};
+      StrPrint q2; ldt.printTo(q2); cs[2] = {ldt.isError(), q2.buf, "<Invalid LocalDateTime>", "LocalDateTime"};
+      StrPrint q3; odt.printTo(q3); cs[3] = {odt.isError(), q3.buf, "<Invalid OffsetDateTime>", "OffsetDateTime"};
+      StrPrint q4; zdt.printTo(q4); cs[4] = {zdt.isError(), q4.buf, "<Invalid ZonedDateTime>", "ZonedDateTime"};
+      for (auto& c : cs) {
+        CNT.add("c15.placeholders_by_component");
+        bool ok = c.err ? (c.got == c.want) : (c.got.find("<Invalid") == std::string::npos);
+        if (!ok) { J j; j.str("type", c.what).num("component", comp).num("value", v).num("isError", c.err).str("got", c.got).str("want_if_error", c.want); witness("c15:placeholder", "error value does not print its documented placeholder", j); }
+      }
+    }
+    OffsetDateTime eo = OffsetDateTime::forComponents(2019, 3, 10, 2, 30, 15, TimeOffset::forError());
+    StrPrint qe; eo.printTo(qe); CNT.add("c15.placeholders_by_component");
+    if (eo.isError() && qe.buf != "<Invalid OffsetDateTime>") { J j; j.str("got", qe.buf); witness("c15:placeholder", "error value does not print its documented placeholder", j); }
+    ZonedDateTime ez = ZonedDateTime::forComponents(2019, 3, 10, 2, 30, 15, TimeZone::forError());
+    StrPrint qz; ez.printTo(qz); CNT.add("c15.placeholders_by_component");
+    if (ez.isError() && qz.buf != "<Invalid ZonedDateTime>") { J j; j.str("got", qz.buf); witness("c15:placeholder", "error value does not print its documented placeholder", j); }
   }
   // TimePeriod print
   for (int32_t s : {0, 1, 59, 60, 3599, 3600, 86399, 921599, -1, -3661, -921599}) {
